@@ -192,3 +192,86 @@ REG.contract('Scheduler.allocate_ingest', world=SW,
              modifies=['self.provision_ingest', 'self.cluster._ingest.completed', 'self.cluster._ingest.status',
                        'heap:Observation.ast', 'heap:Observation.status'],
              props=['C08', 'C13'])
+
+
+# ---- the user-supplied scheduling algorithm: an abstract callee (DESIGN 7.6) ------------------------------------------
+def _alg_ens(c):
+    """It may call the public cluster API (provision / release batch resources, read-only queries) any number of times and
+    returns an ARBITRARY mapping task -> machine, an arbitrary status and an arbitrary set."""
+    k0, k1 = CV(c.o.cluster), CV(c.n.cluster)
+    sched = c.result[0]
+    out = [(f'cluster.{nm}', cl) for nm, cl in cluster_invariant(c.n.cluster, c.n)]
+    out += [('busy-pools-untouched', z3.And(same_list(k1.ing, k0.ing), same_list(k1.occ, k0.occ))),
+            ('task-maps-untouched', z3.And(same_list(k1.run, k0.run), k1.fin.keys == k0.fin.keys, k1.fin.vals == k0.fin.vals)),
+            ('proposals-name-objects', Q([('t', I)], lambda t: z3.Implies(z3.Select(sched.keys, t), z3.And(t > 0, z3.Select(sched.vals, t) > 0))))]
+    return out
+
+
+REG.contract('Scheduling.run', assumed=True,
+             params={'cluster': 'obj:Cluster', 'clock': 'num', 'workflow_plan': 'WorkflowPlan', 'existing_schedule': 'dict:Task->ref:Machine',
+                     'task_pool': 'set:Task'},
+             ensures=_alg_ens, result='tuple:dict:Task->ref:Machine,enum:WorkflowStatus,set:Task',
+             modifies=['cluster._resources.available', 'cluster._resources.idle', 'cluster.num_provisioned_obs', 'heap:WorkflowPlan.status',
+                       'arg:task_pool'],
+             note="ASSUMED (the 'programs' quantifier): the weakest contract the documentation permits for a user algorithm; "
+                  "the four in-tree algorithms are verified against their own, stronger contracts")
+
+
+# ---- _process_current_schedule: the duplicate / busy-machine guard (C01), only UNSCHEDULED tasks are submitted (C04) ----
+def _pcs_inv(c):
+    n = c.n
+    k = CV(n.self.cluster)
+    ca = n['curr_allocs']
+    it, vis, sch, sch0 = c.x['iter'], c.x['visited'], n['schedule'], c.x['pre']['schedule']
+    st0 = lambda x: z3.Select(c.x['pre'].heap('Task', 'task_status'), x)
+    st1 = lambda x: z3.Select(n.heap('Task', 'task_status'), x)
+    return [('C04-statuses-only-move-from-unscheduled-to-scheduled', Q([('x', I)], lambda x: z3.Or(
+        st1(x) == st0(x), z3.And(st0(x) == TS('UNSCHEDULED'), st1(x) == TS('SCHEDULED'))))),
+            ('unvisited-proposals-are-still-in-the-schedule', Q([('t', I)], lambda t: z3.Implies(
+        z3.Select(it.cnt, t) - z3.Select(vis.cnt, t) > 0, z3.And(z3.Select(sch.keys, t), z3.Select(sch.vals, t) > 0, t > 0,
+                                                                  z3.Select(sch.vals, t) == z3.Select(sch0.vals, t))))),
+            ('C01-machines-handed-out-this-round-are-distinct', Q([('m', I)], lambda m: z3.And(ca.count(m) >= 0, ca.count(m) <= 1))),
+            ('C01-machines-handed-out-this-round-were-not-busy', Q([('m', I)], lambda m: z3.Implies(
+                ca.count(m) > 0, z3.And(k.occ.count(m) == 0, k.ing.count(m) == 0))))]
+
+
+def _pcs_body(c):
+    n, s0 = c.n, c.x['iter_start']
+    k = CV(n.self.cluster)
+    t = n['task']
+    m = n['machine']
+    sp = [g for g, p, nd in c.x['spawns'] if g.qual == 'Cluster.allocate_task_to_cluster']
+    st0 = z3.Select(s0.heap('Task', 'task_status'), t.t)
+    st1 = z3.Select(n.heap('Task', 'task_status'), t.t)
+    if len(sp) == 0:
+        return [('C01-skipped-proposal-changes-no-status', st1 == st0)]
+    if len(sp) > 1:
+        return [('C01-at-most-one-allocation-per-proposal', z3.BoolVal(False))]
+    g = sp[0]
+    return [('C01-never-a-machine-already-handed-out-this-round', s0['curr_allocs'].count(m) == 0),
+            ('C01-never-a-busy-machine', z3.And(k.occ.count(m) == 0, k.ing.count(m) == 0)),
+            ('C04-only-unscheduled-tasks-are-submitted', st0 == TS('UNSCHEDULED')),
+            ('C04-submitted-task-is-marked-scheduled', st1 == TS('SCHEDULED')),
+            ('C17-allocation-is-for-the-proposed-pair', z3.And(g.args['task'].t == t.t, g.args['machine'].t == m.t)),
+            ('C09-allocation-carries-the-workflow-id', c.eng.as_int_term(g.args['observation']) == n.workflow_id.t),
+            ('C04-its-task-has-not-run', z3.And(k.run.count(t) == 0, z3.Not(z3.And(k.fin.has(t), z3.Select(k.fin.vals, t.t)))))]
+
+
+REG.contract('Scheduler._process_current_schedule', world=SW,
+             params={'schedule': 'dict:Task->ref:Machine', 'allocation_pairs': 'dict:str->pair:Task,Machine', 'workflow_id': 'str'},
+             requires=lambda c: [('proposals-name-objects', Q([('t', I)], lambda t: z3.Implies(
+                 z3.Select(c.o.schedule.keys, t), z3.And(t > 0, z3.Select(c.o.schedule.vals, t) > 0))))],
+             ensures=lambda c: [('C04-statuses-only-move-from-unscheduled-to-scheduled', Q([('x', I)], lambda x: z3.Or(
+                 z3.Select(c.n.heap('Task', 'task_status'), x) == z3.Select(c.o.heap('Task', 'task_status'), x),
+                 z3.And(z3.Select(c.o.heap('Task', 'task_status'), x) == TS('UNSCHEDULED'),
+                        z3.Select(c.n.heap('Task', 'task_status'), x) == TS('SCHEDULED')))))],
+             result='tuple:dict:Task->ref:Machine,dict:str->pair:Task,Machine',
+             raises={'RuntimeError': dict(when=None, unchanged=False), 'KeyError': dict(when=None, unchanged=False)},
+             modifies=['arg:schedule', 'arg:allocation_pairs', 'heap:Task.task_status', 'heap:Task.allocated_machine_id',
+                       'heap:Task.delay_flag', 'heap:Task.delay_offset', 'heap:Task.duration'],
+             props=['C01', 'C04', 'C17', 'C09'])
+REG.loop('Scheduler._process_current_schedule', 0, inv=_pcs_inv, body=_pcs_body,
+         modifies_locals=['task', 'machine', 'pred_allocations'],
+         modifies=['curr_allocs', 'schedule', 'allocation_pairs', 'heap:Task.task_status', 'heap:Task.allocated_machine_id',
+                   'heap:Task.delay_flag', 'heap:Task.delay_offset', 'heap:Task.duration'],
+         props=['C01', 'C04', 'C17', 'C09'])
